@@ -7,7 +7,7 @@
     facts. *)
 From stdpp Require Import gmap list numbers sorting.
 From Coq Require Import ZArith NArith.
-From Verif Require Import Tx.Store Tx.Ledger Tx.Hist Tx.Inv Tx.Refine Tx.RefineAll Tx.Corollaries.
+From Verif Require Import Tx.Store Tx.Ledger Tx.Hist Tx.Inv Tx.Refine Tx.RefineAll Tx.Corollaries Tx.Node Tx.NodeProofs.
 Local Open Scope Z_scope.
 
 (** For every universe, every chain-consistent history, every prefix of it,
@@ -38,6 +38,29 @@ Theorem C01_model_total_on_consistent_histories : ∀ U h p e,
   (step U (run U p) e).2 ≠ OFuel.
 Proof. exact consistent_never_out_of_fuel. Qed.
 Print Assumptions C01_model_total_on_consistent_histories.
+
+(** "Histories a validating node could emit": Tx/Node.v defines an abstract
+    validating node (best chain with gaps, mempool with replacement by
+    eviction, blocks with coinbase / mempool members / never-announced
+    members in parents-first order, reorgs of any depth) together with the way
+    the wallet is notified (missed or late Seen, repeated Confirm, one
+    Disconnect at any height above the surviving block or the tip-down
+    sequence with stale repeats, wallet-initiated Abandon / Redeliver / lease
+    events, re-announcements). Every event sequence it can emit satisfies the
+    hypothesis of this property - so the theorem applies to all of them. *)
+Theorem C01_validating_node_histories_are_consistent : ∀ U evs,
+  wf_universe U = true → emits U evs → chain_consistent U evs = true.
+Proof. exact node_emits_consistent. Qed.
+Print Assumptions C01_validating_node_histories_are_consistent.
+
+Theorem C01_for_every_node_history : ∀ (U : universe) (evs p : list event),
+  wf_universe U = true → emits U evs → p `prefix_of` evs →
+  let s := st (run U p) in let F := fs (spec_run U p) in let now := clock (run U p) in
+  (∀ minconf sync, 0 <= minconf → (∀ t hh b, f_conf F !! t = Some (hh, b) → hh <= sync) →
+     balance U s minconf sync now = spec_balance U F minconf sync now) ∧
+  unspent_outputs U s now ≡ₚ spec_utxos U F now.
+Proof. exact node_c01. Qed.
+Print Assumptions C01_for_every_node_history.
 
 (** Non-vacuity: a consistent history with a chain, a conflict, a coinbase, a
     same-block parent/child, a rollback below a spender and a lease. *)
